@@ -1277,8 +1277,11 @@ impl Ctx {
                 self.rep.bump(&format!("{}:parse-error", kind));
                 false
             }
-            Outcome::ParsePanic(_) => {
+            Outcome::ParsePanic(msg) => {
                 self.rep.bump(&format!("{}:parser-panic(C06)", kind));
+                if self.rep.notes.len() < 40 {
+                    self.rep.note(format!("parser panic (outside C05's quantifier, see C06): {} — {}", origin, msg.chars().take(80).collect::<String>()));
+                }
                 false
             }
             Outcome::CompileError(e) => {
@@ -1363,6 +1366,8 @@ impl Ctx {
                     self.rep.bump(&format!("op={}", n));
                 }
                 self.rep.bump(&format!("chunk_len_log2={}", (b.chunk.bytes.len().max(1) as f64).log2() as u32));
+                self.rep.bump(&format!("ast_nodes_log2={}", (shape.nodes.max(1) as f64).log2() as u32));
+                self.rep.bump(&format!("functions={}", shape.functions.min(8)));
                 self.rep.bump_by("instructions", n_ins as u64);
                 let nontrivial = n_ins >= 4;
                 self.rep.case(src, nontrivial);
@@ -1618,18 +1623,6 @@ fn main() {
     if std::env::args().any(|a| a == "--worker") {
         return worker_main();
     }
-    if std::env::args().any(|a| a == "--dump-gen") {
-        // development aid: print generated programs and why they do not parse
-        let mut rng = Rng::new(1);
-        for i in 0..200 {
-            let src = gen_program(&mut rng);
-            match Parser::parse(&src) {
-                Ok(_) => println!("--- {} ok", i),
-                Err(e) => println!("--- {} PARSE ERROR {} @ {:?}\n{}", i, e, e.span, src),
-            }
-        }
-        return;
-    }
     // deep recursion in the parser/compiler for the nesting programs: run on a big stack
     let h = std::thread::Builder::new().stack_size(1 << 30).spawn(real_main).unwrap();
     let code = h.join().unwrap_or(2);
@@ -1655,10 +1648,11 @@ fn real_main() -> i32 {
         known_counts: Default::default(),
         programs: 0,
         disagreements_checked: 0,
-        run_budget: if thorough { 6000 } else { 400 },
+        run_budget: if thorough { 12000 } else { 400 },
         sampled: vec![],
     };
     let mut rng = Rng::new(args.seed);
+    let t0 = std::time::Instant::now();
 
     if let Some(p) = &args.replay {
         let v: Value = serde_json::from_str(&std::fs::read_to_string(p).expect("replay file")).unwrap();
@@ -1690,7 +1684,7 @@ fn real_main() -> i32 {
 
     // 1. repository scripts and documentation examples, and their token neighbourhood
     let sources = repo_sources();
-    let cap = if thorough { 400 } else { 14 };
+    let cap = if thorough { 1500 } else { 14 };
     let mut n_mut = 0u64;
     for (origin, src) in &sources {
         let ok = cx.submit(origin, src, false);
@@ -1705,15 +1699,19 @@ fn real_main() -> i32 {
     }
     cx.rep.bump_by("token_mutants_tried", n_mut);
     cx.flush();
+    let t_phase = std::time::Instant::now();
+    cx.rep.note(format!("phase repo+mutants done at {:.1}s", t0.elapsed().as_secs_f64()));
 
     // 2. generated programs
-    let n_gen = if thorough { 30000 } else { 1500 };
+    let n_gen = if thorough { 80000 } else { 1500 };
     for i in 0..n_gen {
         let src = gen_program(&mut rng);
         cx.submit(&format!("gen:{}", i), &src, true);
     }
     cx.flush();
 
+    cx.rep.note(format!("phase generated done at {:.1}s", t0.elapsed().as_secs_f64()));
+    let _ = t_phase;
     // 3. size-scaled programs
     for (label, src) in scaled_programs(&mut rng, thorough) {
         let compiled = cx.submit(&format!("scaled:{}", label), &src, false);
@@ -1721,8 +1719,9 @@ fn real_main() -> i32 {
     }
     cx.flush();
 
+    cx.rep.note(format!("phase scaled done at {:.1}s", t0.elapsed().as_secs_f64()));
     // 4. (K) register allocator histories
-    let n_frame = if thorough { 40000 } else { 3000 };
+    let n_frame = if thorough { 100000 } else { 3000 };
     let mut k_fail = 0;
     let mut batch: Vec<FrameCase> = vec![];
     let mut run_batch = |cx: &mut Ctx, batch: &mut Vec<FrameCase>| {
@@ -1766,6 +1765,7 @@ fn real_main() -> i32 {
     }
     run_batch(&mut cx, &mut batch);
 
+    cx.rep.note(format!("phase allocator done at {:.1}s", t0.elapsed().as_secs_f64()));
     // 5. listed findings: replay the witnesses
     for e in cx.rep.known_entries() {
         let Some(id) = e.get("id").and_then(|x| x.as_str()).map(|s| s.to_string()) else { continue };
